@@ -154,7 +154,7 @@ PROPS = {
     ),
     'C13': dict(
         title='Tags never change what a value does',
-        verus_units=['cell', 'arith'],
+        verus_units=['cell', 'arith', 'collections'],
         kani_groups=[],
         design_ref='DESIGN.md section 5 / C13',
         technique='Verus: every typed accessor of src/cell.rs is specified as a function of strip(cell) (the value without its tag wrapper); every word under contract is specified over strip(arg) only',
